@@ -14,7 +14,7 @@ ATTR_VALUES = ["K", 3, 2.5, [1, 2, 3], [1.5, 2.5], "long text with spaces"]
 
 
 def attrs_for(rng, n=2):
-    keys = rng.sample(["units", "long_name", "scale", "levels", "history", "comment"], rng.randint(0, n))
+    keys = rng.sample(["units", "long_name", "scale", "levels", "history", "comment", "_source", "_levels", "Conventions", "valid_min"], rng.randint(0, n))
     return {k: rng.choice(ATTR_VALUES) for k in keys}
 
 
@@ -144,6 +144,10 @@ class C19(Prop):
                     # JSON-representable values that are falsy in Python
                     for k in rng.sample(["zero", "fzero", "empty", "nolist", "flag"], rng.randint(1, 3)):
                         meta[k] = {"zero": 0, "fzero": 0.0, "empty": "", "nolist": [], "flag": False}[k]
+                if rng.random() < 0.25:
+                    # keys that are also names of attributes or methods of the class: they are metadata all the same
+                    for k in rng.sample(["shape", "T", "size", "mean", "labels"], rng.randint(1, 2)):
+                        meta[k] = rng.choice(["round", 7, [1, 2]])
                 c = {"op": "json", "array": gen.clean(arr), "meta": meta}
                 if rng.random() < 0.3:
                     # an entry that json cannot represent, set BEFORE the others: it may be dropped, the others may not
